@@ -1,4 +1,31 @@
 import RP.Driver.Common
--- line-protocol driver for property C20 (stub)
-def handle (_line : String) : String := "unimplemented"
+import RP.Model.Sampler
+/-! line-protocol driver for C20:
+ `one <epoch> <past> <disc> <abs> <future> <weight bits…>` → predicted opponent branch index
+ `any <epoch> <past> <disc> <abs> <future> <n>`            → predicted chance branch index
+ `init <street> <k> <points>`                               → predicted centroid point indices -/
+open RP.Driver RP.Sampler
+
+def parsePoint (s : String) : Nat × List Nat :=
+  let pairs := (s.splitOn ",").filterMap (fun kv =>
+    match kv.splitOn "=" with
+    | [i, c] => some (natOf i, natOf c)
+    | _ => none)
+  let counts := (List.range 101).map (fun i => (pairs.filter (·.1 == i)).foldl (fun a p => a + p.2) 0)
+  (counts.foldl (· + ·) 0, counts)
+
+def handle (line : String) : String :=
+  match words line with
+  | "one" :: e :: p :: d :: a :: f :: ws =>
+    match exploreOne (natOf e) (natOf p) (natOf d) (natOf a) (natOf f) (ws.map (fun w => Float32.ofBits (UInt32.ofNat (natOf w)))) with
+    | some i => toString i
+    | none => "panic"
+  | ["any", e, p, d, a, f, n] =>
+    if natOf n = 0 then "panic" else toString (exploreAny (natOf e) (natOf p) (natOf d) (natOf a) (natOf f) (natOf n))
+  | ["init", s, k, pts] =>
+    match kmeansInit (natOf s) (natOf k) ((pts.splitOn ";").map parsePoint) with
+    | some is => ",".intercalate (is.map toString)
+    | none => "panic"
+  | _ => "bad-op"
+
 def main : IO Unit := RP.Driver.run handle
